@@ -203,6 +203,7 @@ def bytes_(**kwargs):
         _BOUND = bound
         _BOUND_SHIFT = shift
         _PARTIAL_ALIGNMENT = None
+        _LIMIT = None
         _is_prophy_object = True
 
         @staticmethod
@@ -211,6 +212,8 @@ def bytes_(**kwargs):
                 raise ProphyError("not a bytes")
             if size and len(value) > size:
                 raise ProphyError("too long")
+            if _bytes._LIMIT is not None and len(value) > _bytes._LIMIT:
+                raise ProphyError("too long for its sizer")
             if size and not bound:
                 return value.ljust(size, b'\x00')
             return value
